@@ -73,6 +73,12 @@ def specRound (p : Fin 24 → Fin 24) (t : Nat) : Round :=
 theorem rounds_eq_spec : rounds = (List.range 24).map fun t => specRound (ppow t) t := by
   decide +kernel
 
+@[simp] theorem specLine_i0 (p : Fin 24 → Fin 24) (j : Fin 8) : (specLine p j).i0 = p ⟨j.val, by omega⟩ := rfl
+@[simp] theorem specLine_i1 (p : Fin 24 → Fin 24) (j : Fin 8) : (specLine p j).i1 = p ⟨j.val + 8, by omega⟩ := rfl
+@[simp] theorem specLine_i2 (p : Fin 24 → Fin 24) (j : Fin 8) : (specLine p j).i2 = p ⟨j.val + 16, by omega⟩ := rfl
+theorem ppow_zero (x : Fin 24) : ppow 0 x = x := rfl
+theorem ppow_succ (t : Nat) : ppow (t + 1) = fun x => ppow t (Spec.perm x) := rfl
+
 def view (p : Fin 24 → Fin 24) (s : State) : Spec.St := fun x => s[p x].toBitVec
 
 /-- output of the S-line of `y`'s column, at `y`'s row, read from the array `s` -/
@@ -88,8 +94,7 @@ theorem applyS_at (p : Fin 24 → Fin 24) (hp : Function.Injective p) (j : Fin 8
   unfold applyS
   simp only [Fin.getElem_fin, Vector.getElem_set, specLine, inj]
   by_cases h : z.val % 8 = j.val
-  · have hj : (⟨z.val % 8, Nat.mod_lt _ (by decide)⟩ : Fin 8) = j := Fin.ext h
-    simp only [h, if_true, colOut, specLine, hj, Fin.getElem_fin]
+  · simp only [h, if_true, colOut, specLine, Fin.getElem_fin]
     by_cases h8 : z.val < 8
     · have : ¬ (j.val + 16 = z.val) := by omega
       have : ¬ (j.val + 8 = z.val) := by omega
@@ -105,5 +110,139 @@ theorem applyS_at (p : Fin 24 → Fin 24) (hp : Function.Injective p) (j : Fin 8
     have : ¬ (j.val + 8 = z.val) := by omega
     have : ¬ (j.val = z.val) := by omega
     simp [*]
+
+
+/-- the S-line of column `j` does not disturb what another column reads -/
+theorem colOut_applyS (p : Fin 24 → Fin 24) (hp : Function.Injective p) (j : Fin 8) (s : State) (y : Fin 24)
+    (h : y.val % 8 ≠ j.val) : colOut p (applyS (specLine p j) s) y = colOut p s y := by
+  have a0 := applyS_at p hp j s ⟨y.val % 8, by omega⟩
+  have a1 := applyS_at p hp j s ⟨y.val % 8 + 8, by omega⟩
+  have a2 := applyS_at p hp j s ⟨y.val % 8 + 16, by omega⟩
+  have e0 : (y.val % 8) % 8 ≠ j.val := by omega
+  have e1 : (y.val % 8 + 8) % 8 ≠ j.val := by omega
+  have e2 : (y.val % 8 + 16) % 8 ≠ j.val := by omega
+  simp only [e0, e1, e2, if_false] at a0 a1 a2
+  simp only [colOut, specLine_i0, specLine_i1, specLine_i2, a0, a1, a2]
+
+theorem foldS_at (p : Fin 24 → Fin 24) (hp : Function.Injective p) :
+    ∀ (js : List (Fin 8)) (_ : js.Nodup) (s : State) (y : Fin 24),
+      (js.foldl (fun s j => applyS (specLine p j) s) s)[p y]
+        = if (⟨y.val % 8, Nat.mod_lt _ (by decide)⟩ : Fin 8) ∈ js then colOut p s y else s[p y] := by
+  intro js
+  induction js with
+  | nil => intro _ s y; simp
+  | cons j js ih =>
+    intro hnd s y
+    rw [List.nodup_cons] at hnd
+    rw [List.foldl_cons, ih hnd.2]
+    by_cases hy : y.val % 8 = j.val
+    · have hj : (⟨y.val % 8, Nat.mod_lt _ (by decide)⟩ : Fin 8) = j := Fin.ext hy
+      have : j ∉ js := hnd.1
+      simp only [hj, this, if_false, List.mem_cons, true_or, if_true]
+      rw [applyS_at p hp, if_pos hy]
+    · have hj : (⟨y.val % 8, Nat.mod_lt _ (by decide)⟩ : Fin 8) ≠ j := fun e => hy (congrArg Fin.val e)
+      simp only [List.mem_cons, hj, false_or]
+      rw [colOut_applyS p hp j s y hy, applyS_at p hp, if_neg hy]
+
+theorem rot_ok : ∀ j : Fin 8,
+    RotOk (.ofNat (Spec.rot j.val).1) ∧ RotOk (.ofNat (Spec.rot j.val).2.1) ∧
+    RotOk (.ofNat (Spec.rot j.val).2.2.1) ∧ RotOk (.ofNat (Spec.rot j.val).2.2.2) ∧
+    (UInt64.ofNat (Spec.rot j.val).1).toNat = (Spec.rot j.val).1 ∧
+    (UInt64.ofNat (Spec.rot j.val).2.1).toNat = (Spec.rot j.val).2.1 ∧
+    (UInt64.ofNat (Spec.rot j.val).2.2.1).toNat = (Spec.rot j.val).2.2.1 ∧
+    (UInt64.ofNat (Spec.rot j.val).2.2.2).toNat = (Spec.rot j.val).2.2.2 := by
+  unfold RotOk; decide +kernel
+
+/-- the S-lines of the code compute the S-box layer of the standard -/
+theorem colOut_spec (p : Fin 24 → Fin 24) (s : State) (y : Fin 24) :
+    (colOut p s y).toBitVec = Spec.sLayer (view p s) y := by
+  obtain ⟨r1, r2, r3, r4, e1, e2, e3, e4⟩ := rot_ok ⟨y.val % 8, Nat.mod_lt _ (by decide)⟩
+  have h := bashS_spec _ _ _ _ r1 r2 r3 r4
+    s[(p ⟨y.val % 8, by omega⟩)] s[(p ⟨y.val % 8 + 8, by omega⟩)] s[(p ⟨y.val % 8 + 16, by omega⟩)]
+  rw [e1, e2, e3, e4] at h
+  simp only [Prod.ext_iff] at h
+  simp only [colOut, specLine, Spec.sLayer, view]
+  split
+  · exact h.1
+  · split
+    · exact h.2.1
+    · exact h.2.2
+
+theorem perm_inj : Function.Injective Spec.perm := by
+  intro a b; revert a b; decide
+
+/-- one round of the code, seen through the cell map, is one round of the standard -/
+theorem applyR_spec (p : Fin 24 → Fin 24) (hp : Function.Injective p) (t : Nat) (s : State) :
+    view (fun x => p (Spec.perm x)) (applyR (specRound p t) s) = Spec.round t (view p s) := by
+  funext x
+  have hall : ∀ y : Fin 24, (⟨y.val % 8, Nat.mod_lt _ (by decide)⟩ : Fin 8) ∈ List.finRange 8 :=
+    fun y => List.mem_finRange _
+  have hf := fun y => foldS_at p hp (List.finRange 8) (List.nodup_finRange 8) s y
+  simp only [hall, if_true] at hf
+  simp only [view, applyR, specRound, List.foldl_map, Fin.getElem_fin, Vector.getElem_set, Spec.round]
+  have inj : ((p (Spec.perm 23)).val = (p (Spec.perm x)).val) ↔ x = 23 := by
+    rw [Fin.val_inj, hp.eq_iff, perm_inj.eq_iff]; exact eq_comm
+  simp only [inj]
+  have h1 := hf (Spec.perm x)
+  have h2 := hf (Spec.perm 23)
+  simp only [Fin.getElem_fin] at h1 h2
+  by_cases hx : x = 23
+  · subst hx
+    simp only [if_true, UInt64.toBitVec_xor, h2, colOut_spec]
+  · simp only [hx, if_false, h1, colOut_spec]
+
+theorem ppow_inj : ∀ t, Function.Injective (ppow t)
+  | 0 => fun _ _ h => h
+  | t + 1 => fun _ _ h => perm_inj (ppow_inj t h)
+
+theorem foldR_spec : ∀ (n t : Nat) (s : State),
+    view (ppow (t + n)) ((List.range' t n).foldl (fun s t => applyR (specRound (ppow t) t) s) s)
+      = Spec.roundsFrom t n (view (ppow t) s) := by
+  intro n
+  induction n with
+  | zero => intro t s; rfl
+  | succ n ih =>
+    intro t s
+    rw [List.range'_succ, List.foldl_cons, Spec.roundsFrom]
+    have := ih (t + 1) (applyR (specRound (ppow t) t) s)
+    rw [show t + 1 + n = t + (n + 1) by omega] at this
+    rw [this, ppow_succ, applyR_spec (ppow t) (ppow_inj t) t s]
+
+theorem ppow24 : ∀ x, ppow 24 x = x := by decide
+
+/-- **bash-f of the code is bash-f of the standard, for every 1536-bit state.** -/
+theorem bashF0_spec (s : State) (x : Fin 24) :
+    (bashF0 s)[x].toBitVec = Spec.bashF (fun y => s[y].toBitVec) x := by
+  have h := foldR_spec 24 0 s
+  rw [show 0 + 24 = 24 from rfl] at h
+  have e : bashF0 s = (List.range' 0 24).foldl (fun s t => applyR (specRound (ppow t) t) s) s := by
+    unfold bashF0
+    rw [rounds_eq_spec, List.foldl_map, List.range_eq_range']
+  rw [e]
+  have := congrFun h x
+  simp only [view, ppow24] at this
+  unfold Spec.bashF
+  exact this
+
+
+namespace Spec
+/-- tabulated evaluation of the rounds (the function form recomputes exponentially when evaluated) -/
+def roundsFromV : Nat → Nat → Vector W 24 → Vector W 24
+  | _, 0, v => v
+  | t, n + 1, v => roundsFromV (t + 1) n (Vector.ofFn (round t (fun y => v[y])))
+
+theorem roundsFromV_eq : ∀ (n t : Nat) (v : Vector W 24) (x : Fin 24),
+    (roundsFromV t n v)[x] = roundsFrom t n (fun y => v[y]) x := by
+  intro n
+  induction n with
+  | zero => intro t v x; rfl
+  | succ n ih =>
+    intro t v x
+    have e : (fun y : Fin 24 => (Vector.ofFn (round t (fun y => v[y])))[y]) = round t (fun y => v[y]) := by
+      funext y; simp
+    show (roundsFromV (t + 1) n (Vector.ofFn (round t (fun y => v[y]))))[x]
+        = roundsFrom (t + 1) n (round t (fun y => v[y])) x
+    rw [ih, e]
+end Spec
 
 end Bee2V.C03
